@@ -64,6 +64,18 @@ def run_family(prop, tier, seed, replay, origin="writer", mc_cfg=None, level="mo
             with open(cases, "a") as f:
                 f.write(open(cases2).read())
     case_list = C.read_ndjson(cases)
+    if prop == "C16" and not replay:
+        # every 40th versatiles / pmtiles case once more through the HTTP data reader (get_reader("http://..."))
+        extra = []
+        for i, c in enumerate([c for c in case_list if c["fmt"] in ("versatiles", "pmtiles")]):
+            if i % 40 == 0:
+                c2 = dict(c)
+                c2["via"] = "http"
+                extra.append(c2)
+        case_list += extra
+        with open(cases, "w") as f:
+            for c in case_list:
+                f.write(json.dumps(c) + "\n")
     t1 = os.path.join(d, "trace_replay.ndjson")
     s1 = C.run_harness(hb, ["replay", "CONTAINER", cases, t1, scratch, prop], timeout=6000)
     v1 = C.validate_trace("trace/Trace_Container.tla", "trace/Trace_Container.cfg", prop + "_trace_replay", t1, timeout=3000, heap="12g")
@@ -76,7 +88,7 @@ def run_family(prop, tier, seed, replay, origin="writer", mc_cfg=None, level="mo
                 if cl not in mine:
                     continue
                 rec = {"clause": cl, "source": source, "fmt": fl["case"]["fmt"], "tf": fl["case"]["tf"], "tc": fl["case"]["tc"],
-                       "origin": fl["case"]["origin"], "case": fl["case"]}
+                       "origin": fl["case"]["origin"], "via": fl["case"].get("via", "file"), "case": fl["case"]}
                 if cl == "stream":
                     rec["bad_streams"] = fl.get("bad_streams")
                     rec["stream_status"] = sorted({b["status"] for b in fl.get("bad_streams", [])})
